@@ -335,6 +335,16 @@ theorem C06_reported_count_is_the_history (D : Dataset) (hc : D.Consistent) :
       (hogsMap H a d).retained.length = (D.fams.map fun f => reportedAt false a d f.1 none f.2).sum :=
   Pyham.C06_reported_count_is_the_history D hc
 
+/-- **the number of duplication events of any comparison between ancestral genomes, END TO END** (last clause of C06): events +
+    lineages crossing `a` = duplicated copies + lost + retained -- every term on the right, and the lineage count, is a function
+    of the histories -/
+theorem C06_number_duplications_is_the_history (D : Dataset) (hc : D.Consistent) :
+    ∃ H, load D.T D.nm D.file = .ok H ∧ ∀ a d, a ≠ d → D.T.isInternalAt a = true → D.T.isInternalAt d = true →
+      (hogsMap H a d).ndup + (D.fams.map fun f => lineagesAt a f.1 f.2).sum =
+        (D.fams.map fun f => reportedAt true a d f.1 none f.2).sum + (D.fams.map fun f => extinctAt a d f.1 f.2).sum +
+          (D.fams.map fun f => reportedAt false a d f.1 none f.2).sum :=
+  Pyham.C06_number_duplications_is_the_history D hc
+
 /-- `Loc.rootTx` is the taxon of the outermost ancestor (the top-level HOG), or of the member itself when it has none -/
 theorem C06_rootTx_is_top (H : Ham) (hw : H.WFc) (r : Loc) (hr : r ∈ H.allLocs) :
     (r.anc = [] → r.rootTx = r.node.tx) ∧ (∀ top, r.anc.getLast? = some top → top.tx = r.rootTx) :=
